@@ -7,6 +7,7 @@ CONSTANTS
   MaxRestarts = 1
   FlushOnRotate = TRUE
   TornTailIsEOF = TRUE
+  EncodeCuts = {}
 INVARIANTS TypeOK PrefixThenEnd MarkerSound MarkerComplete Export
 ACTION_CONSTRAINT Edge
 VIEW View
